@@ -69,7 +69,7 @@ class Show(ASTNode):
             in_str = ' ' + ' '.join(ar)
 
         modes_str = f' {" ".join(self.modes)}' if self.modes else ''
-        like_str = f" LIKE '{self.like}'" if self.like else ""
+        like_str = f" LIKE '{self.like}'" if self.like is not None else ""
         where_str = f' WHERE {str(self.where)}' if self.where else ''
 
         # custom commands
